@@ -106,6 +106,9 @@ pub struct Plan {
     /// after the as_reader() calls of `ask`: do not go on (reading, answering) before this phase is open
     #[serde(default)]
     pub hold_phase: u64,
+    /// after reading, right before answering: wait for this phase
+    #[serde(default)]
+    pub ans_phase: u64,
     pub ans: Ans,
 }
 
